@@ -6,6 +6,7 @@
 //   clone,<newoid>,<path>                 clone_object(<path>, <newoid>)
 //   dest,<oid>                            destruct(<object oid>)
 //   reload,<oid>                          reload_object(<object oid>)
+//   via,<oid>,<op>                        evaluate((: run_op, <op> :) made by <oid>), then geteuid(that function)
 // Virtual objects: a load/clone of a path without a file asks master::compile_object, which (policy) clones a
 // template as `v<n>`; the driver renames that object to the virtual path.
 // Every op prints one result line `r ...`; create() prints `new <oid> <object name> <uid> <euid>`.
@@ -53,6 +54,9 @@ string run_op (string op) {
   return r;
 }
 
+// a function pointer owned by this object that performs one op when somebody evaluates it
+mixed make_fp (string op) { return (: run_op ($(op)) :); }
+
 // create()-script key of an object: its file name, clones share `<path>#`
 string script_key (object o) {
   string key;
@@ -88,7 +92,7 @@ void create (mixed s) {
 
 string do_op (string s) {
   string *w;
-  mixed r, e;
+  mixed r, e, fpv;
   object o;
   w = explode (s, ",");
   r = 0;
@@ -119,9 +123,28 @@ string do_op (string s) {
     e = catch (o = clone_object (w[2], w[1]));
     if (!e && o) r = o->my_oid ();
     break;
+  case "via":   // via,<oid>,<op...>: evaluate a function pointer made by <oid>; the op runs in the OWNER's context
+    o = REG->get (w[1]);
+    if (!o) { r = "nobj"; break; }
+    fpv = o->make_fp (implode (w[2..], ","));
+    REG->snap ();
+    REG->enter ();
+    e = catch (evaluate (fpv));
+    REG->leave ();
+    if (!e) r = us (geteuid (fpv));      // geteuid(function) = euid of the owner
+    break;
   case "dest":
     o = REG->get (w[1]);
-    if (!o || w[1] == "m" || REG->depth () > 0) r = "nobj";   // not from inside a create() script
+    if (!o || REG->depth () > 0) r = "nobj";   // not from inside a create() script
+    else if (w[1] == "m") {
+      // destruct of the master: the driver loads a new master (a load on behalf of this object) and makes it root
+      e = catch (destruct (o));
+      if (!e) {
+        o = master ();
+        VL ("new m " + file_name (o) + " " + us (getuid (o)) + " " + us (geteuid (o)));
+        r = 1;
+      }
+    }
     else { REG->unreg (w[1]); destruct (o); r = 1; }
     break;
   case "reload":
